@@ -664,6 +664,8 @@ fn run_history(rep: &mut Report, prop: &str, seed: u64, len: usize) -> HistoryOu
                     ci = world.chains.len() - 1;
                     k = *rng.pick(&[1u64, 1, 1, 2]);
                     last_growth = now;
+                    announce_queue = connected.iter().cloned().collect();
+                    tick_due = false;
                 }
                 let _ = legal_plan(&mut rng, &world.chains[ci]);
                 // keep the epoch plan of the chain: append_simple continues the current epoch rule
@@ -700,6 +702,11 @@ fn run_history(rep: &mut Report, prop: &str, seed: u64, len: usize) -> HistoryOu
                 for (_, c) in world.peer_chain.iter_mut() {
                     *c = new_idx;
                 }
+                // the clock moved with the new blocks: the peers announce the new tip before the
+                // next timer (in reality timers and announcements alternate all along)
+                announce_queue = connected.iter().cloned().collect();
+                tick_due = false;
+                last_growth = now;
                 if std::env::var("VERIF_DEBUG_BANS").is_ok() {
                     eprintln!("network reorg: stored tip #{} on_main {} anchor {} depth {} at {} new tip {} last_n {}", tip_number, on_main, anchor, depth, at, world.chains[new_idx].tip_number(), last_n);
                 }
@@ -1105,6 +1112,36 @@ fn run_history(rep: &mut Report, prop: &str, seed: u64, len: usize) -> HistoryOu
                     let still = after_state.as_ref().and_then(|s| s.get_prove_request().cloned());
                     if still.is_none() {
                         outstanding.remove(&p);
+                    } else if c05 && !outcome.starts_with("ban") && r.is_ok() {
+                        // a node answers a request once: the client keeps waiting for an answer it
+                        // has already received, until the refresh timer drops the peer
+                        outstanding.remove(&p);
+                        if !tainted {
+                            let stored_number: u64 = after_tip.1.raw().number().unpack();
+                            let first_sampled_is_genesis = hviews.first().map(|h| h.number() == 0).unwrap_or(false);
+                            let class = if first_sampled_is_genesis && stored_number >= last_vh.header().number() {
+                                "genesis-sampled-after-another-peer-proved-the-tip"
+                            } else if msg.proof().is_empty() && msg.headers().is_empty() {
+                                "tip-changed-answer"
+                            } else {
+                                "other"
+                            };
+                            let mut rr = replay.clone();
+                            rr.push(format!(
+                                "# peer {}: the honest answer to its request (last #{}, {} headers, first #{}) leaves the request outstanding; stored tip #{}",
+                                p,
+                                last_vh.header().number(),
+                                hviews.len(),
+                                hviews.first().map(|h| h.number().to_string()).unwrap_or("-".into()),
+                                stored_number
+                            ));
+                            rep.violate(
+                                &format!("C05|answer-dropped|{}", class),
+                                "the client ignores a correct answer and keeps its request outstanding: the peer is dropped by the timeout although it answered",
+                                rr,
+                            );
+                            tainted = true;
+                        }
                     }
                 }
                 if outcome.starts_with("ban") {
@@ -1345,6 +1382,12 @@ fn run_history(rep: &mut Report, prop: &str, seed: u64, len: usize) -> HistoryOu
         }
         push_dump(&mut node, &mut lines, &mut impls);
         let _ = step;
+    }
+    if std::env::var("VERIF_TRACE").is_ok() {
+        for (l, i) in lines.iter().zip(impls.iter()) {
+            let w = if std::env::var("VERIF_TRACE").map(|v| v == "full").unwrap_or(false) { usize::MAX } else { 200 };
+            eprintln!("{}   #{}", l.chars().take(w).collect::<String>(), i.chars().take(w.saturating_mul(2)).collect::<String>());
+        }
     }
     if c05 {
         // the stored tip is as heavy as the heaviest tip the connected peers announce
